@@ -77,6 +77,16 @@ def app(f, inner):
     return (f % inner) if '%s' in f else '%s(%s)' % (f, inner)
 
 
+# (outer expression, the aggregate expression inside it, outer value from the inner value)
+AGG_NESTED = [("concat('largest: ', hex(max(size)))", 'hex(max(size))', lambda v: 'largest: ' + v), ("concat(hex(max(size)), ' is largest')", 'hex(max(size))', lambda v: v + ' is largest'),
+              ("concat('n=', abs(count(*)))", 'abs(count(*))', lambda v: 'n=' + v), ("concat('n=', count(*) + 1)", 'count(*) + 1', lambda v: 'n=' + v),
+              ("concat_ws('-', 'a', 'b', upper(hex(min(size))))", 'upper(hex(min(size)))', lambda v: 'a-b-' + v), ("coalesce('', abs(count(*)))", 'abs(count(*))', lambda v: v),
+              ("least(100000, abs(count(*)))", 'abs(count(*))', lambda v: v), ("greatest(0, abs(min(size)))", 'abs(min(size))', lambda v: v),
+              ("concat('x', concat('y', concat('z', sum(size))))", 'sum(size)', lambda v: 'xyz' + v), ("replace('a-b', 'b', hex(max(size)))", 'hex(max(size))', lambda v: 'a-' + v),
+              ("substr('abcdefghijklmnopqrstuvwxyz', 1, abs(count(*)))", 'abs(count(*))', lambda v: 'abcdefghijklmnopqrstuvwxyz'[:int(float(v))]),
+              ("concat('m:', lower(upper(hex(max(size) - min(size)))))", 'lower(upper(hex(max(size) - min(size))))', lambda v: 'm:' + v)]
+
+
 def gen(tier):
     # ---- string functions on literals, one call per query
     for fn, model in SFUNCS.items():
@@ -181,6 +191,9 @@ def gen(tier):
     for oi in range(len(ENTRY_OUTER)):
         for inner in ENTRY_INNER:
             yield {'k': 'entryfn', 'outer': oi, 'inner': inner, 'fn': 'function-of-entry-reading-function'}
+    # F(constant, G(aggregate)): a function applied to an aggregate that stands deeper inside one of its arguments gives one row, F of the aggregate's value
+    for i in range(len(AGG_NESTED)):
+        yield {'k': 'aggfn', 'i': i, 'fn': 'function-of-nested-aggregate'}
     # the date functions on a modified column whose year has more than four digits or a sign (tmpfs only)
     yield {'k': 'faryears', 'expr': 'year(modified)', 'fn': 'date-part-of-far-year'}
     yield {'k': 'daterows', 'expr': 'year(name)', 'fn': 'date-rows'}
@@ -470,6 +483,27 @@ def eval_group(env, group, tier):
                             r.update(status='ok', sig=('far', len(rows_)))
                 finally:
                     subprocess.run(['rm', '-rf', shm])
+            elif k == 'aggfn':
+                outer, inner, f = AGG_NESTED[c['i']]
+                bad = None
+                for frm in (' from .', ' from . where size ge 0', ''):
+                    oi_ = env.run([inner + frm + ' into list'], cwd=root)
+                    o = env.run([outer + frm + ' into list'], cwd=root)
+                    o2 = env.run([outer + ', ' + inner + frm + ' into list'], cwd=root)
+                    vi = oi_.rows()
+                    if oi_.rc != 0 or len(vi) != 1:
+                        raise core.MachineryError('C16 aggregate reference %r %r' % (inner, oi_.brief()))
+                    want = f(vi[0])
+                    if o.rc != 0 or o.err or o.rows() != [want]:
+                        bad = {'query': outer + frm, 'got': o.rows()[:4], 'expected': [want], 'err': o.brief()['err']}
+                    elif o2.rc != 0 or o2.rows(2) != [(want, vi[0])]:
+                        bad = {'query': outer + ', ' + inner + frm, 'got': (o2.rows(2) or [])[:4], 'expected': [want, vi[0]]}
+                    if bad:
+                        break
+                if bad:
+                    viol(c['fn'], bad)
+                else:
+                    r.update(status='ok', sig=(c['i'],))
             elif k == 'entryfn':
                 tmpl, f = ENTRY_OUTER[c['outer']]
                 q2 = 'name, %s, %s from . into list' % (tmpl % c['inner'], c['inner'])
